@@ -247,10 +247,50 @@ def make(rng, i):
     return c
 
 
+def weaken(c):
+    """the same sea scaled down (per point) until it only just breaks: integrated dissipation between -5e-10 and
+    -1e-12 - not zero, so the estimate must still be NaN or a positive speed that closes the balance"""
+    g, d = c["pair"].split("/")
+    b = wl.make_balance(g, d)
+    E = np.asarray(c["E"], float)
+    n = E.shape[0]
+    lo, hi = np.full(n, 0.0), np.full(n, 1.0)
+    found = np.zeros(n, dtype=bool)
+    fac = np.ones(n)
+    for _ in range(40):
+        mid = 0.5 * (lo + hi)
+        try:
+            db = np.asarray(b.dissipation.bulk_rate(wl.build(c, E * mid[:, None, None])).values, float)
+        except Exception:
+            return None
+        ok = (db < -1e-12) & (db > -5e-10)
+        fac = np.where(ok & ~found, mid, fac)
+        found |= ok
+        too_strong = db <= -5e-10
+        hi = np.where(too_strong, mid, hi)
+        lo = np.where(~too_strong, mid, lo)
+        if found.all():
+            break
+    if not found.any():
+        return None
+    c2 = dict(c)
+    c2["E"] = E * np.where(found, fac, 1.0)[:, None, None]
+    if c.get("dEdt") is not None:
+        c2["dEdt"] = None
+    c2["kind_note"] = "weakly-breaking"
+    return c2
+
+
 def run_shard(ctx, shard):
     rng = ctx.rng()
     for i in range(shard["n"]):
-        judge(ctx, make(rng, i + shard.get("index", 0)))
+        c = make(rng, i + shard.get("index", 0))
+        judge(ctx, c)
+        if i % 4 == 0 and c["kind"] in ("windsea", "young", "veering"):
+            c2 = weaken(c)
+            if c2 is not None:
+                ctx.count("C11.weakly_breaking_versions_judged")
+                judge(ctx, c2)
 
 
 def replay(ctx, case):
